@@ -1,6 +1,7 @@
 """Shared machinery for /verif/tools/check.py: TLC invocation, behaviour extraction, Go driver builds,
 evidence writing, known findings, exit protocol."""
 import glob
+import atexit
 import json
 import os
 import re
@@ -47,7 +48,9 @@ def go_build(pkg, name, tags='verif'):
     """Build harness command pkg (relative to harness) into .bin/name from the CURRENT /repo tree."""
     gen_gomod()
     os.makedirs(BIN, exist_ok=True)
-    out = os.path.join(BIN, name)
+    # a private output per checker process: two checks running at the same time may build the same driver
+    out = os.path.join(BIN, '%s.%d' % (name, os.getpid()))
+    atexit.register(lambda p=out: os.path.exists(p) and os.remove(p))
     cmd = ['go', 'build', '-tags', tags, '-o', out, './' + pkg]
     r = subprocess.run(cmd, cwd=HARNESS, env=goenv(), capture_output=True, text=True)
     if r.returncode != 0:
@@ -58,7 +61,8 @@ def go_build(pkg, name, tags='verif'):
 def go_test_build(pkg, name, tags='verif'):
     gen_gomod()
     os.makedirs(BIN, exist_ok=True)
-    out = os.path.join(BIN, name)
+    out = os.path.join(BIN, '%s.%d' % (name, os.getpid()))
+    atexit.register(lambda p=out: os.path.exists(p) and os.remove(p))
     cmd = ['go', 'test', '-c', '-tags', tags, '-o', out, './' + pkg]
     r = subprocess.run(cmd, cwd=HARNESS, env=goenv(), capture_output=True, text=True)
     if r.returncode != 0:
